@@ -102,8 +102,8 @@ def gen(c, n, A, cmode, amode):
         s.annot = arrays.SymNd(M.astype(int) if amode == "matrix01" else M)
         rec(c, "avail", M.tolist())
         if cmode == "idx":
-            srt = sorted(rows)  # the matrix rows correspond to the (sorted, unique) candidate indices
-            avail = {(srt[i], a) for i in range(len(srt)) for a in range(A) if M[i, a]}
+            # row i of the matrix belongs to the i-th candidate index AS GIVEN (the candidates are handed over unsorted)
+            avail = {(s.cand[i], a) for i in range(len(s.cand)) for a in range(A) if M[i, a]}
         else:
             avail = {(i, a) for i in range(nrows_for_matrix) for a in range(A) if M[i, a]}
     s.avail = avail
@@ -139,7 +139,7 @@ def real_gen(inputs, n, A, cmode, amode):
         M = np.array(inputs["avail"], dtype=bool)
         s.annot = M.astype(int) if amode == "matrix01" else M
         if cmode == "idx":
-            avail = {(rows[i], a) for i in range(len(rows)) for a in range(A) if M[i, a]}
+            avail = {(s.cand[i], a) for i in range(len(s.cand)) for a in range(A) if M[i, a]}
         else:
             avail = {(i, a) for i in range(M.shape[0]) for a in range(A) if M[i, a]}
     s.avail, s.rows = avail, rows
